@@ -10,6 +10,8 @@ package openapiv2
 // a range over a map appearing anywhere else in the package is reported.
 //@ maprange-census property C09: summaryFromExpr=4 summaryFromMeta=1
 //@ func NewV2
+//@   params root h
+//@   locals tags:[]*openapi.Tag u:*url.URL err:error host:string basePath:string params:[]*openapiv2.Parameter paramMap:map[string]*openapiv2.Parameter s:*openapiv2.V2 p:*openapiv2.Parameter res:*expr.HTTPServiceExpr k:string v:any fs:*expr.HTTPFileServerExpr a:*expr.HTTPEndpointExpr route:*expr.RouteExpr n:string d:*openapi.Schema
 //@   opt maprange deterministic
 //@   opt inline none
 //@   opt loopframes none
